@@ -371,3 +371,198 @@ def await_atomicity_census(ctx: Context, rule: str) -> None:
                                f"`{ast.unparse(t.test)[:60]}` is tested, then `{susp[0].text()[:50]}` suspends, then `{ast.unparse(a)[:50]}` writes {F} - with no async lock common to the test, the write and "
                                f"the other writers of {F}: another task can run the same test-and-set in between (both then act on the stale answer)")
     rep.floor(rule, "test / suspend / set sequences on task-shared fields (async)", n, 4)
+
+
+# ---- Python-level value semantics (round j): shared mutable objects and identity tests ---------------------------------------------
+_MUTABLE_CTORS = {"list", "dict", "set", "bytearray", "deque", "defaultdict", "OrderedDict", "collections.deque", "collections.defaultdict", "collections.OrderedDict"}
+_MUTATORS = {"append", "extend", "insert", "pop", "remove", "clear", "update", "setdefault", "add", "discard", "popitem", "sort", "reverse", "appendleft", "popleft", "extendleft"}
+
+
+def _is_mutable_value(v: ast.AST | None) -> bool:
+    if isinstance(v, (ast.List, ast.Dict, ast.Set, ast.ListComp, ast.DictComp, ast.SetComp)):
+        return True
+    return isinstance(v, ast.Call) and norm(v.func) in _MUTABLE_CTORS
+
+
+def _shared_mutables(tree: ast.Module) -> tuple[set[str], dict[str, set[str]]]:
+    """(module-level names, class name -> class-level names) bound to a mutable container object at import time."""
+    mod: set[str] = set()
+    cls: dict[str, set[str]] = {}
+
+    def binds(body: list[ast.stmt]) -> set[str]:
+        out = set()
+        for st in body:
+            tg, val = None, None
+            if isinstance(st, ast.Assign) and len(st.targets) == 1:
+                tg, val = st.targets[0], st.value
+            elif isinstance(st, ast.AnnAssign):
+                tg, val = st.target, st.value
+            if isinstance(tg, ast.Name) and _is_mutable_value(val):
+                out.add(tg.id)
+        return out
+
+    mod |= binds(tree.body)
+    for n in ast.walk(tree):
+        if isinstance(n, ast.ClassDef):
+            b = binds(n.body)
+            if b:
+                cls[n.name] = b
+    return mod, cls
+
+
+def shared_mutable_findings(src: str) -> tuple[list[tuple[int, str, str]], int, int]:
+    """Raw-source scan of one module.  Returns (findings, shared objects, functions scanned); a finding is an IN-PLACE mutation
+    (augmented assignment, mutator method, subscript store / delete) of an object that exists once per process: a module-level or
+    class-level container, or a mutable default argument - reached directly, through `self.` / `cls.` / the class name, or through a
+    local that was bound to it.  Works on the source as written, before constants are inlined."""
+    tree = ast.parse(src)
+    mod, cls = _shared_mutables(tree)
+    out: list[tuple[int, str, str]] = []
+    nfun = 0
+    nshared = len(mod) + sum(len(v) for v in cls.values())
+
+    def scan(fn: ast.AST, owner: str | None) -> None:
+        nonlocal nfun, nshared
+        nfun += 1
+        own_cls = cls.get(owner or "", set())
+        shared_expr: dict[str, str] = {}
+        a = fn.args
+        pos = a.posonlyargs + a.args
+        for arg, d in list(zip(pos[len(pos) - len(a.defaults):], a.defaults)) + [(k, d) for k, d in zip(a.kwonlyargs, a.kw_defaults) if d is not None]:
+            if _is_mutable_value(d):
+                shared_expr[arg.arg] = f"mutable default of parameter `{arg.arg}`"
+                nshared += 1
+        assigned_locals = {t.id for n in ast.walk(fn) for t in ([n.target] if isinstance(n, (ast.AugAssign, ast.AnnAssign, ast.For, ast.AsyncFor)) else n.targets if isinstance(n, ast.Assign) else [])
+                           if isinstance(t, ast.Name)} | {x.arg for x in pos + a.kwonlyargs}
+
+        def ref(e: ast.AST) -> str | None:
+            if isinstance(e, ast.Name):
+                if e.id in shared_expr:
+                    return shared_expr[e.id]
+                if e.id in mod and e.id not in assigned_locals:
+                    return f"module-level `{e.id}`"
+            if isinstance(e, ast.Attribute) and isinstance(e.value, ast.Name):
+                base = e.value.id
+                if base in ("self", "cls") and e.attr in own_cls and not instance_bound.get(e.attr):
+                    return f"class-level `{owner}.{e.attr}`"
+                if base in cls and e.attr in cls[base]:
+                    return f"class-level `{base}.{e.attr}`"
+            return None
+
+        # attributes the instance rebinds to a FRESH object (then `self.x` no longer names the class-level one)
+        instance_bound: dict[str, bool] = {}
+        for n in ast.walk(fn):
+            if isinstance(n, (ast.Assign, ast.AnnAssign)):
+                for t in (n.targets if isinstance(n, ast.Assign) else [n.target]):
+                    if isinstance(t, ast.Attribute) and isinstance(t.value, ast.Name) and t.value.id == "self" and n.value is not None:
+                        instance_bound[t.attr] = True
+        # local aliases (flow-insensitive, to a fixed point)
+        changed = True
+        while changed:
+            changed = False
+            for n in ast.walk(fn):
+                if isinstance(n, ast.Assign) and len(n.targets) == 1 and isinstance(n.targets[0], ast.Name) and n.targets[0].id not in shared_expr:
+                    r = ref(n.value)
+                    if r is not None:
+                        shared_expr[n.targets[0].id] = r + f" (through the local `{n.targets[0].id}`)"
+                        changed = True
+        for n in ast.walk(fn):
+            tgt, how = None, ""
+            if isinstance(n, ast.AugAssign):
+                tgt, how = n.target, f"augmented assignment `{ast.unparse(n)[:60]}`"
+                if isinstance(tgt, ast.Subscript):
+                    tgt = tgt.value
+            elif isinstance(n, ast.Call) and isinstance(n.func, ast.Attribute) and n.func.attr in _MUTATORS:
+                tgt, how = n.func.value, f"`{ast.unparse(n)[:60]}`"
+            elif isinstance(n, ast.Subscript) and isinstance(n.ctx, (ast.Store, ast.Del)):
+                tgt, how = n.value, f"subscript store / delete `{ast.unparse(n)[:60]}`"
+            if tgt is None:
+                continue
+            r = ref(tgt)
+            if r is not None:
+                out.append((n.lineno, (owner + "." if owner else "") + fn.name, f"{how} modifies {r} in place"))
+
+    def visit(body: list[ast.stmt], owner: str | None) -> None:
+        for st in body:
+            if isinstance(st, (ast.FunctionDef, ast.AsyncFunctionDef)):
+                scan(st, owner)
+            elif isinstance(st, ast.ClassDef):
+                visit(st.body, st.name)
+
+    visit(tree.body, None)
+    return out, nshared, nfun
+
+
+_SHARED_MUT_WITNESS = '''
+class K:
+    ALPN = ["http/1.1"]
+    def f(self, on):
+        x = self.ALPN
+        if on:
+            x += ["h2"]
+        return x
+def g(a, seen=[]):
+    seen.append(a)
+'''
+
+
+def no_shared_mutable_state(ctx: Context, rule: str, modules: tuple[str, ...], why: str) -> None:
+    """No object that exists once per process (class-level / module-level container, mutable default) is modified in place by the
+    named modules: what one connection or request does must not change what the next one starts from."""
+    rep = ctx.rep
+    w, _, _ = shared_mutable_findings(_SHARED_MUT_WITNESS)
+    if len(w) != 2:
+        raise AnalysisError(f"{rule}: the built-in positive example of the shared-mutable scan no longer matches ({w})")
+    nf = ns = nm = 0
+    for full in modules:
+        if True:
+            tree = "sync" if "._sync." in full else "async" if "._async." in full else "shared"
+            m = ctx.prog.module(full)
+            nm += 1
+            found, nshared, nfun = shared_mutable_findings(m.src)
+            nf += nfun
+            ns += nshared
+            for line, fn, text in found:
+                rep.ob(rule, f"{tree}|{fn}|shared-mutable:{text.split(' modifies ')[1][:60]}", False, f"{m.relpath}:{line}", f"{text}: {why}")
+    rep.ob(rule, "both|*|no-shared-mutable-state", True, "httpcore/", f"{nm} modules, {nf} functions scanned on the source as written; {ns} per-process container objects, none modified in place")
+    rep.floor(rule, "functions scanned for in-place modification of per-process objects", nf, 20)
+
+
+def _singleton_operand(e: ast.AST) -> bool:
+    if isinstance(e, ast.Constant) and (e.value is None or e.value is True or e.value is False or e.value is Ellipsis):
+        return True
+    if isinstance(e, ast.Attribute) and e.attr.isupper():
+        return True          # h11.NEED_DATA, HTTPConnectionState.IDLE: sentinels and enum members are singletons
+    return isinstance(e, ast.Name) and e.id.isupper()
+
+
+def identity_findings(src: str) -> tuple[list[tuple[int, str]], int]:
+    out, n = [], 0
+    for c in ast.walk(ast.parse(src)):
+        if isinstance(c, ast.Compare):
+            ops = [c.left] + c.comparators
+            for i, op in enumerate(c.ops):
+                if isinstance(op, (ast.Is, ast.IsNot)):
+                    n += 1
+                    if not (_singleton_operand(ops[i]) or _singleton_operand(ops[i + 1])):
+                        out.append((c.lineno, ast.unparse(c)[:70]))
+    return out, n
+
+
+def identity_tests_on_singletons(ctx: Context, rule: str, modules: tuple[str, ...], why: str) -> None:
+    """`is` / `is not` only against None / True / False / an UPPER_CASE sentinel or enum member.  Between ordinary values (ints above
+    256, bytes, strings) identity is an accident of the interpreter - and the evaluators of this framework read `is` as `==`, which
+    is only right for singletons."""
+    rep = ctx.rep
+    w, _ = identity_findings("def f(url, d):\n    return url.port is None or url.port is d\n")
+    if len(w) != 1:
+        raise AnalysisError(f"{rule}: the built-in positive example of the identity-test scan no longer matches ({w})")
+    total = 0
+    for name in modules:
+        m = ctx.prog.module(name)
+        found, n = identity_findings(m.src)
+        total += n
+        for line, text in found:
+            rep.ob(rule, f"shared|{name.split('.')[-1]}|identity:{text[:50]}", False, f"{m.relpath}:{line}", f"`{text}` compares two ordinary values by identity: {why}")
+    rep.ob(rule, "shared|*|identity-tests", True, "httpcore/", f"{total} identity tests in {len(modules)} modules, each against None / True / False / an UPPER_CASE sentinel")
+    rep.floor(rule, "identity tests scanned", total, 10)
